@@ -116,6 +116,7 @@ type Sys struct {
 	// CheckLifecycle enables the probes' online PostStop/Receive overlap check
 	// (only the lifecycle scenarios own that property).
 	CheckLifecycle bool
+	shared         *Sys // when set, events go to that system's log (multi-node runs share one totally ordered log)
 }
 
 // StartSys creates and starts an actor system with the discard logger.
@@ -143,6 +144,9 @@ func (s *Sys) Stop() error {
 }
 
 func (s *Sys) Ev(e Ev) int {
+	if s.shared != nil {
+		return s.shared.Ev(e)
+	}
 	e.Seq = len(s.Log)
 	e.T = simrt.Now()
 	e.G = simrt.ThreadID()
@@ -152,6 +156,9 @@ func (s *Sys) Ev(e Ev) int {
 
 // Tail renders the last n log entries (for violation details).
 func (s *Sys) Tail(n int) string {
+	if s.shared != nil {
+		return s.shared.Tail(n)
+	}
 	from := max(0, len(s.Log)-n)
 	var b strings.Builder
 	for _, e := range s.Log[from:] {
